@@ -161,12 +161,15 @@ class MyPyAstVisitor:
             # Can only be one, since a class can inherit "Generic" only one time
             generic_expr = getattr(generic_exprs[0], "index", None)
 
+            # Only type variables are type parameters, e.g. not the "int" of "Sequence[int]"
             if isinstance(generic_expr, mp_nodes.TupleExpr):
-                generic_types = [item.node for item in generic_expr.items if hasattr(item, "node")]
-            elif isinstance(generic_expr, mp_nodes.NameExpr):
+                generic_types = [
+                    item.node for item in generic_expr.items if isinstance(getattr(item, "node", None), mp_nodes.TypeVarExpr)
+                ]
+            elif isinstance(generic_expr, mp_nodes.NameExpr) and isinstance(generic_expr.node, mp_nodes.TypeVarExpr):
                 generic_types = [generic_expr.node]
-            else:  # pragma: no cover
-                raise TypeError("Unexpected type while parsing generic type.")
+            else:
+                generic_types = []
 
             for generic_type in generic_types:
                 variance_type = mypy_variance_parser(generic_type.variance)
